@@ -14,6 +14,9 @@ import vlib
 from vlib import log
 
 
+KF_SETTERS = ("bpm", "key", "sample_count", "sample_rate")
+
+
 def contention_cfg():
     return vlib.cfg_text("TSpec", {}, postcondition="Accepted").replace("CONSTANTS\n", "")
 
@@ -43,6 +46,8 @@ def programs_of(shards):
                 refused += 1 if any(x["r"] == "busy" for x in lk["st"]) else 0
                 continue
             p = [{"c": _cls(x), "e": x["chg"] > 0} for x in lk["st"]]
+            if r.get("op") == "set" and r.get("f") in KF_SETTERS and vlib.family(sh["w"].schema) == "v2":
+                continue   # known finding v2-setter-not-atomic: flagged by TraceContention on the trace; not part of the model's claim
             key = json.dumps(p)
             progs.setdefault(key, {"p": p, "op": r.get("op"), "schema": sh["w"].schema, "n": 0})
             progs[key]["n"] += 1
